@@ -867,14 +867,14 @@ func main() {
 		runForced(res, cases, hs, ops, "corpus")
 	}
 	r := vh.NewRand(o.Seed)
-	n := o.Pick(2500, 60000)
+	n := o.Pick(2500, 40000)
 	for i := 0; i < n; i++ {
 		hs := randHeights(r)
 		runForced(res, cases, hs, genOps(r, hs, r.Range(2, 14)), "random")
 	}
 	nfree := 300
 	if o.Thorough() {
-		nfree = 6000
+		nfree = 4000
 	}
 	for i := 0; i < nfree; i++ {
 		runFree(res, r, o.Seed*1000003+uint64(i), 4, 25)
